@@ -36,7 +36,12 @@ def name_sets(draw):
                 long_prefix = (long_prefix * 300)[:draw(st.integers(250, 262))]
             nm = long_prefix + draw(st.sampled_from(["", "a", "B", "_1", "tail" * 10]))
         elif k == 7:
-            nm = "n" * draw(st.integers(253, 258))
+            # names at the length limit: also not starting with a letter ('&' form, 256 allowed) and
+            # ending in an existing counter that gains a digit when a case-variant sibling collides
+            head = draw(st.sampled_from(["n", "n", "1", "_", "N"]))
+            tail = draw(st.sampled_from(["", "", "_sdn_9_", "_sdn_99_"]))
+            total = draw(st.integers(253, 258))
+            nm = head * (total - len(tail)) + tail
         else:
             nm = "".join(draw(st.lists(st.sampled_from(ALPHA), min_size=1, max_size=8)))
         if nm and nm not in names:
@@ -44,6 +49,12 @@ def name_sets(draw):
     if not names:
         names = ["a"]
     return names
+
+
+def too_long(i):
+    """the recorded finding is exactly 'cut to 256 characters without & prefix'; anything longer is a
+    different failure and must not hide behind it"""
+    return "too-long" if (len(i) == 256 and not i.startswith("&")) else "too-long:beyond-256"
 
 
 def classify_pair(a, b):
@@ -128,7 +139,7 @@ class C17(Prop):
             ids.append(e.data["EDIF.identifier"])
         for e, i in zip(elements, ids):
             if not legal(i):
-                why = "too-long" if len(i) > 255 + i.startswith("&") else (
+                why = too_long(i) if len(i) > 255 + i.startswith("&") else (
                     "dash" if "-" in i else "other")
                 res.violate("C17:illegal-identifier:%s" % why, "%s: name %r -> identifier %r (len %d)" % (
                     tag, e.name[:60], i[:60], len(i)))
@@ -251,7 +262,7 @@ class C17(Prop):
         for o in fresh:
             i = o["EDIF.identifier"]
             if not legal(i):
-                why = "too-long" if len(i) > 255 + i.startswith("&") else ("dash" if "-" in i else "other")
+                why = too_long(i) if len(i) > 255 + i.startswith("&") else ("dash" if "-" in i else "other")
                 res.violate("C17:illegal-identifier:%s" % why, "make_valid: name %r -> %r (len %d)" % (
                     o.name[:60], i[:60], len(i)))
                 return
